@@ -373,7 +373,7 @@ impl Xot {
     /// # Ok::<(), xot::Error>(())
     /// ```
     pub fn insert_after(&mut self, reference_node: Node, new_sibling: Node) -> Result<(), Error> {
-        self.add_structure_check(self.parent(reference_node), new_sibling)?;
+        self.add_sibling_structure_check(reference_node, new_sibling)?;
         self.remove_consolidate_text_nodes(
             self.previous_sibling(new_sibling),
             self.next_sibling(new_sibling),
@@ -393,7 +393,7 @@ impl Xot {
 
     /// Insert a new sibling before a reference node.
     pub fn insert_before(&mut self, reference_node: Node, new_sibling: Node) -> Result<(), Error> {
-        self.add_structure_check(self.parent(reference_node), new_sibling)?;
+        self.add_sibling_structure_check(reference_node, new_sibling)?;
         self.remove_consolidate_text_nodes(
             self.previous_sibling(new_sibling),
             self.next_sibling(new_sibling),
@@ -877,6 +877,26 @@ impl Xot {
     /// off this behavior so text nodes are never merged by calling this.
     pub fn set_text_consolidation(&mut self, consolidate: bool) {
         self.text_consolidation = consolidate;
+    }
+
+    fn add_sibling_structure_check(
+        &self,
+        reference_node: Node,
+        new_sibling: Node,
+    ) -> Result<(), Error> {
+        // an ordinary node may not end up among the attribute and namespace
+        // nodes of an element
+        if !self.value(reference_node).is_normal() {
+            return Err(Error::InvalidOperation(
+                "Cannot insert a sibling next to an attribute or namespace node".into(),
+            ));
+        }
+        if reference_node == new_sibling {
+            return Err(Error::InvalidOperation(
+                "Cannot insert a node as its own sibling".into(),
+            ));
+        }
+        self.add_structure_check(self.parent(reference_node), new_sibling)
     }
 
     fn add_structure_check(&self, parent: Option<Node>, child: Node) -> Result<(), Error> {
